@@ -25,6 +25,11 @@ def Kind.attr : Kind → String
 def Kind.zero : Kind → Cell
   | .S => some (.num 0) | .B => some (.num 0) | .A => none
 
+/-- what `asString` / `asBytes` / `asArray` leave in a cell no tuple was given for (rune -1, byte 0, nil) -/
+def Kind.fill : Kind → Cell
+  | .B => some (.num 0)
+  | _ => none
+
 /-- a value as the Go code holds it -/
 inductive HVal
   | seq (k : Kind) (s : Slice) (off : Int) (aux : Nat)  -- String{s,offset,holes} / Bytes{b,offset} / Array{values,offset,count}
@@ -135,7 +140,9 @@ def trimBack (h : Heap) (s : Slice) : Slice :=
 def newOffsetArray (h : Heap) (off : Int) (s : Slice) : HVal :=
   let a := trimFront h s off
   let s2 := trimBack h a.1
-  if s2.len = 0 then hnone else .seq .A s2 a.2 (countSome (read h s2))
+  if s2.len = 0 then hnone
+  else if countSome (read h s2) = 0 then hnone      -- nothing but holes: the trimming only stops at a non-hole
+  else .seq .A s2 a.2 (countSome (read h s2))
 
 /-- `asString` / `asBytes` / `asArray` (the set builder's `Finish` for one bucket): a fresh array
 spanning the smallest to the largest index -/
@@ -145,7 +152,7 @@ def asSeq (k : Kind) (h : Heap) (ps : List (Int × V)) : Heap × HVal :=
   | _ :: _ =>
     let lo := minIdx ps
     let n := (maxIdx ps - lo + 1).toNat
-    let p := mkSlice h (match k with | .B => some (.num 0) | _ => none) n 0
+    let p := mkSlice h k.fill n 0
     let h2 := ps.foldl (fun hh iv => store hh p.2 (iv.1 - lo).toNat [some iv.2]) p.1
     (h2, .seq k p.2 lo (match k with | .S => n - ps.length | .B => 0 | .A => countSome (read h2 p.2)))
 
@@ -186,9 +193,20 @@ def seqWith (rep : Bool) (orc : Oracle) (k : Kind) (h : Heap) (s : Slice) (off :
     let p2 := append orc k.zero p1.1 p1.2 [some c]
     let p3 := append orc k.zero p2.1 p2.2 cs
     (p3.1, .seq k p3.2 (off - 1) aux)
+  else if k = .S ∧ ¬ (0 ≤ i ∧ i < s.len ∧ (cs[i.toNat]?).bind id ≠ none) then
+    -- String.with filling a hole or adding beyond either end: rebuilt as a sparse String through the set builder
+    finishV h (V.mkSet (tupleOf k at_ c :: members (V.mkSeq k.attr off cs)))
   else
-    -- newGenericSetFromSet(s).With(tuple): leaves the slice world
+    -- newGenericSetFromSet(s).With(tuple) (a second char / byte at an occupied index; Bytes.with away from the ends):
+    -- leaves the slice world
     (h, .other (V.mkSet (tupleOf k at_ c :: members (V.mkSeq k.attr off cs))))
+
+/-- `String.trimHoles`: `s.s[1:]` while the first rune is a hole, then `s.s[:len-1]` while the last one is -/
+def trimHoles (h : Heap) (s : Slice) (off : Int) (holes : Nat) : Slice × Int × Nat :=
+  let i := leadingNone (read h s)
+  let s1 := reslice s i s.len
+  let t := leadingNone (read h s1).reverse
+  (reslice s1 0 (s1.len - t), off + i, holes - i - t)
 
 /-- `String.Without` -/
 def strWithout (h : Heap) (s : Slice) (off : Int) (holes : Nat) (at_ : Int) (c : V) : Heap × HVal :=
@@ -205,15 +223,18 @@ def strWithout (h : Heap) (s : Slice) (off : Int) (holes : Nat) (at_ : Int) (c :
       let h3 := store h2 p.2 i.toNat [none]
       (h3, p.2, off, holes + 1)
     else (h, s, off, holes)
-  if r.2.1.len - r.2.2.2 = 0 then (r.1, hnone) else (r.1, .seq .S r.2.1 r.2.2.1 r.2.2.2)
+  let t := trimHoles r.1 r.2.1 r.2.2.1 r.2.2.2
+  if t.1.len - t.2.2 = 0 then (r.1, hnone) else (r.1, .seq .S t.1 t.2.1 t.2.2)
 
-/-- `Bytes.Without` (as found: everything from the removed byte on is dropped — a C01 defect that
-matters here only because the result `b.b[:i]` is a re-slice with spare capacity) -/
+/-- `Bytes.Without`: at an end a re-slice, in the middle a generic set -/
 def bytesWithout (h : Heap) (s : Slice) (off : Int) (at_ : Int) (c : V) : Heap × HVal :=
   let cs := read h s
   let i := index off s.len at_
   if 0 ≤ i ∧ i < s.len ∧ cs[i.toNat]? = some (some c) then
-    if 0 < i then (h, .seq .B (reslice s 0 i.toNat) off 0) else (h, hnone)
+    if s.len = 1 then (h, hnone)
+    else if i = 0 then (h, .seq .B (reslice s 1 s.len) (off + 1) 0)
+    else if i = (s.len : Int) - 1 then (h, .seq .B (reslice s 0 i.toNat) off 0)
+    else (h, .other (V.mkSet ((members (V.mkSeq (Kind.attr .B) off cs)).filter (fun m => !decide (m = tupleOf .B at_ c)))))
   else (h, .seq .B s off 0)
 
 /-! ### Array -/
@@ -243,15 +264,17 @@ def withItem (h : Heap) (s : Slice) (off : Int) (count : Nat) (at_ : Int) (item 
     let h2 := copy p.1 p.2 cs
     if cs[idx.toNat]? = some none then
       (store h2 p.2 idx.toNat [some item], .seq .A p.2 off (count + 1))
-    else (h2, .err)   -- panic("superimposed array items not supported yet")
+    else   -- a second item at an occupied index: newGenericSetFromSet(a).With(tuple)
+      (h2, .other (V.mkSet (tupleOf .A at_ item :: members (V.mkSeq (Kind.attr .A) off cs))))
 
 /-- `Array.Without` -/
 def arrWithout (h : Heap) (s : Slice) (off : Int) (count : Nat) (at_ : Int) (item : V) : Heap × HVal :=
   let cs := read h s
   let i := at_ - off
   if 0 ≤ i ∧ i < s.len ∧ cs[i.toNat]? = some (some item) then
-    if at_ = off then (h, .seq .A (reslice s 1 s.len) (off + 1) (count - 1))
-    else if at_ = off + s.len - 1 then (h, .seq .A (reslice s 0 (s.len - 1)) off (count - 1))
+    -- removing an end may expose holes: NewOffsetArray trims them
+    if at_ = off then (h, newOffsetArray h (off + 1) (reslice s 1 s.len))
+    else if at_ = off + s.len - 1 then (h, newOffsetArray h off (reslice s 0 (s.len - 1)))
     else
       let p := clone h s
       let h2 := store p.1 p.2 i.toNat [none]
@@ -633,7 +656,7 @@ def mapCells (f : Fn) (k : Kind) : List Cell → Option (List Cell)
     | none => none
     | some r' =>
       match c with
-      | none => if k = .A then some (none :: r') else none     -- strings map the hole marker too: outside the domain
+      | none => some (none :: r')     -- a hole (nil item, negative rune) is kept: there is no value to transform
       | some v =>
         match f.eval v with
         | some y => if validElem k y then some (some y :: r') else none
@@ -689,8 +712,10 @@ def subChunks (old new : List V) : Nat → List V → List (List V)
 /-- `let [_, …, ...r] = x; r` and `let [...r, _, …] = x; r` (`ArrayPattern.Bind`): `NewArray(values[i:j]...)` -/
 def restV (h : Heap) (x : HVal) (k : Nat) (fromEnd : Bool) : HVal :=
   match x with
-  | .seq .A s _ count =>
-    if k ≤ count then
+  | .seq .A s off count =>
+    -- an array pattern describes consecutive items from index 0: `array.offset != 0 || array.count != len(array.values)`
+    -- is an error; then `array.Values()[i : i+offset+1]`
+    if k ≤ count ∧ count = s.len ∧ off = 0 then
       (if fromEnd then newOffsetArray h 0 (reslice s 0 (count - k))
        else newOffsetArray h 0 (reslice s k count))
     else .err
